@@ -98,7 +98,12 @@ SPEC = {
     "Child": dict(fam="Z1", scalars={"val": "i"}, m2o={"parent": (["Parent"], True)}, colls={}, delete="free", pk="int"),
     "Owner": dict(fam="Z1b", scalars={"name": "s"}, m2o={}, colls={"items": (["Item"], "o2m")}, delete="free", pk=None),
     "Item": dict(fam="Z1b", scalars={"qty": "i"}, m2o={"owner": (["Owner"], False)}, colls={}, delete="free", pk=None),
-    "Node": dict(fam="Z2", scalars={"label": "s"}, m2o={"parent": (["Node"], True)}, colls={"children": (["Node"], "o2m")}, delete="free", pk=None),
+    "Node": dict(fam="Z2", scalars={"label": "s"}, m2o={"parent": (["Node"], True)}, colls={"children": (["Node"], "o2m"), "tags": (["NTag"], "m2m")}, delete="free", pk=None),
+    # mappers related to the self-referential Node from outside its dependency cycle, all
+    # one-directional (a reverse side would duplicate every ordering edge from inside the cycle)
+    "NTag": dict(fam="Z2", scalars={"word": "s"}, m2o={}, colls={}, delete="free", pk=None),
+    "NRef": dict(fam="Z2", scalars={"note": "s"}, m2o={"node": (["Node"], True)}, colls={}, delete="free", pk=None),
+    "NOwner": dict(fam="Z2", scalars={"name": "s"}, m2o={}, colls={"nodes": (["Node"], "o2m_uni")}, delete="free", pk=None),
     "CycA": dict(fam="Z2c", scalars={"x": "i"}, m2o={"b": (["CycB"], True)}, colls={}, delete="unref", pk=None),
     "CycB": dict(fam="Z2c", scalars={"y": "i"}, m2o={"a": (["CycA"], True)}, colls={}, delete="unref", pk=None),
     "Left": dict(fam="Z3", scalars={"name": "s"}, m2o={}, colls={"rights": (["Right"], "m2m")}, delete="free", pk=None),
@@ -171,6 +176,32 @@ class Zoo:
                 cascade="all" if tree_cascade == "all" else "save-update, merge",
             )
             parent = rel("Node", back_populates="children", remote_side=[id])
+            nowner_id = C(FK("nowner.id"))
+            tags = rel("NTag", secondary="node_ntag", **({"collection_class": set} if m2m_set else {}))
+
+        class NTag(Base):
+            __tablename__ = "ntag"
+            id = C(I, primary_key=True)
+            word = C(S(30))
+
+        sa.Table(
+            "node_ntag", md,
+            C("node_id", FK("node.id"), primary_key=True),
+            C("ntag_id", FK("ntag.id"), primary_key=True),
+        )
+
+        class NRef(Base):
+            __tablename__ = "nref"
+            id = C(I, primary_key=True)
+            node_id = C(FK("node.id"))
+            note = C(S(30))
+            node = rel("Node")
+
+        class NOwner(Base):
+            __tablename__ = "nowner"
+            id = C(I, primary_key=True)
+            name = C(S(30))
+            nodes = rel("Node")
 
         class CycA(Base):
             __tablename__ = "cyc_a"
@@ -288,23 +319,23 @@ class Zoo:
 
         self.cls = {
             c.__name__: c
-            for c in (Parent, Child, Owner, Item, Node, CycA, CycB, Left, Right, Art, Tag, ArtTag,
+            for c in (Parent, Child, Owner, Item, Node, NTag, NRef, NOwner, CycA, CycB, Left, Right, Art, Tag, ArtTag,
                       Employee, Manager, Engineer, Vehicle, Car, Truck, NUser, NAddr, Vertex)
         }
         reg.configure()
         self.mappers = {n: sa.inspect(c) for n, c in self.cls.items()}
-        self.secondary_tables = {"lr"}
+        self.secondary_tables = {"lr", "node_ntag"}
         self.tables = sorted(md.tables)
         # table -> ordered pk column names
         self.table_pk = {t: [c.name for c in md.tables[t].primary_key.columns] for t in self.tables}
         # mapper event hooks (fault injection for C32); one permanent listener per zoo
         for name in ("before_insert", "after_insert", "before_update", "after_update", "before_delete", "after_delete"):
-            for c in (Parent, Child, Owner, Item, Node, CycA, CycB, Left, Right, Art, Tag, ArtTag,
+            for c in (Parent, Child, Owner, Item, Node, NTag, NRef, NOwner, CycA, CycB, Left, Right, Art, Tag, ArtTag,
                       Employee, Vehicle, NUser, NAddr, Vertex):
                 event.listen(c, name, self._mk_hook(name), propagate=True)
         self.on_reload = None   # callable(obj): an instance was loaded / refreshed / expired
         for name in ("load", "refresh", "expire"):
-            for c in (Parent, Child, Owner, Item, Node, CycA, CycB, Left, Right, Art, Tag, ArtTag,
+            for c in (Parent, Child, Owner, Item, Node, NTag, NRef, NOwner, CycA, CycB, Left, Right, Art, Tag, ArtTag,
                       Employee, Vehicle, NUser, NAddr, Vertex):
                 event.listen(c, name, self._mk_reload(), propagate=True)
         self._info = {}
@@ -399,8 +430,10 @@ def is_dml(sql):
 
 
 class Rig:
-    def __init__(self, zoo, template, path, expire_on_commit=True, autoflush=True):
+    def __init__(self, zoo, template, path, expire_on_commit=True, autoflush=True, fk=True):
         from sqlalchemy import event, orm
+
+        self.fk = fk   # False: the database does not veto anything; dangling references show up in relation()
 
         warnings.simplefilter("ignore")
         self.zoo = zoo
@@ -413,7 +446,7 @@ class Rig:
         def _connect(dbapi_connection, record):
             dbapi_connection.isolation_level = None  # documented recipe: SQLAlchemy emits BEGIN
             cur = dbapi_connection.cursor()
-            cur.execute("PRAGMA foreign_keys=ON")
+            cur.execute("PRAGMA foreign_keys=ON" if fk else "PRAGMA foreign_keys=OFF")
             cur.execute("PRAGMA synchronous=OFF")       # speed only (file lives in /dev/shm)
             cur.execute("PRAGMA journal_mode=MEMORY")
             cur.close()
@@ -803,6 +836,12 @@ def relation(rig, snap, reader, counters=None, exclude=None):
                     findings.append(Finding(f"{kind}-row-links-member-absent-from-loaded-collection", f"{ci['table']} links {ci['member_base']}{k} to {e['cls']}{e['ident']} but loaded .{key} does not list it", {"slot": e["slot"], "attr": key}))
                 else:
                     bump("collection_rows_of_objects_outside_session")   # S5
+    # (g) the rows themselves: every foreign key value references an existing row (always true
+    # while the database enforces it; decisive when the rig runs with foreign_keys=OFF)
+    names, bad = reader("PRAGMA foreign_key_check")
+    bump("foreign_key_checks")
+    for r in bad[:5]:
+        findings.append(Finding("row-references-missing-row", f"{r[0]} rowid {r[1]} references a missing row of {r[2]}", {"row": list(r)}))
     # (e) rows nobody owns
     for t in zoo.tables:
         if t in zoo.secondary_tables:
@@ -1045,6 +1084,15 @@ class Interp:
         o, coll = self._coll(slot, rel)
         x = self.obj(mslot)
         self.need(self.usable(x) and x not in coll)
+        if SPEC[type(o).__name__]["colls"][rel][1] == "o2m_uni":
+            # no reverse side keeps other owners' collections in step: a member may be
+            # appended only while nobody owns it (FK attribute loaded and None, listed nowhere)
+            import sqlalchemy as sa
+
+            self.need(sa.inspect(x).dict.get("nowner_id", 0) is None or sa.inspect(x).key is None)
+            for y in self.rig.objs:
+                if type(y) is type(o) and y is not o and x in sa.inspect(y).dict.get(rel, ()):
+                    raise Skip()
         self._node_ok(o, x)
         self._pretouch(o, rel, x)
         self._add(coll, x)
@@ -1149,6 +1197,45 @@ class Interp:
                         return False
         return True
 
+    def _inbound(self, o):
+        """Rows that reference ``o`` through a one-directional relationship (NRef.node,
+        Node.tags) are not handled by any ORM rule when ``o`` is deleted: the application
+        un-links or deletes them in the same flush.  Returns the actions, raises Skip."""
+        import sqlalchemy as sa
+
+        Z = self.zoo.cls
+        acts = []
+        with self.s.no_autoflush:   # the look-up is the harness's, it must not split the flush
+            return self._inbound_impl(o, Z, acts)
+
+    def _inbound_impl(self, o, Z, acts):
+        import sqlalchemy as sa
+
+        if type(o).__name__ == "NTag" and o.id is not None:
+            t = self.zoo.md.tables["node_ntag"]
+            nodes = self.s.scalars(sa.select(Z["Node"]).join(t, t.c.node_id == Z["Node"].id).where(t.c.ntag_id == o.id)).all()
+            for n in nodes:
+                self.need(self.usable(n))
+            for n in nodes:
+                def act(n=n):
+                    if o in n.tags:
+                        n.tags.remove(o)
+                acts.append(act)
+        if type(o).__name__ == "Node":
+            st = sa.inspect(o)
+            nodes = [o] + [o_ for o_, m_, st_, d_ in st.mapper.cascade_iterator("delete", st) if type(o_).__name__ == "Node"]
+            for n in nodes:
+                if n.id is None:
+                    continue
+                for r in self.s.scalars(sa.select(Z["NRef"]).where(Z["NRef"].node_id == n.id)).all():
+                    self.need(self.usable(r))
+                    if self.rig.track(r) % 2:
+                        acts.append(lambda r=r: setattr(r, "node", None))
+                    else:
+                        self.need(not self._pending_refs(r))
+                        acts.append(lambda r=r: self.s.delete(r))
+        return acts
+
     def op_del(self, slot):
         import sqlalchemy as sa
 
@@ -1158,6 +1245,10 @@ class Interp:
         self.need(SPEC[type(o).__name__]["delete"] == "free")
         self.need(not self._pending_refs(o))
         self.need(self._cascade_ok(o))
+        acts = self._inbound(o)
+        self.need(not self._pending_refs(o))
+        for act in acts:
+            act()
         self.s.delete(o)
 
     def op_cycdel(self, slot):
@@ -1558,7 +1649,7 @@ class Gen:
         return r.choice(c)
 
     def g_app(self):
-        p = self._coll_pick(("o2m", "m2m"))
+        p = self._coll_pick(("o2m", "m2m", "o2m_uni"))
         if not p:
             return None
         s, rel, members = p
@@ -1574,7 +1665,7 @@ class Gen:
         return [self.rig._slot[id(x)] for x in list(d[rel]) if id(x) in self.rig._slot]
 
     def g_rem(self):
-        p = self._coll_pick(("o2m", "m2m", "assoc"))
+        p = self._coll_pick(("o2m", "m2m", "assoc", "o2m_uni"))
         if not p:
             return None
         s, rel, members = p
@@ -1596,13 +1687,13 @@ class Gen:
         return ["repl", s, rel, cands[: self.rng.randrange(0, 4)]]
 
     def g_clr(self):
-        p = self._coll_pick(("o2m", "m2m", "assoc"))
+        p = self._coll_pick(("o2m", "m2m", "assoc", "o2m_uni"))
         if not p:
             return None
         return ["clr", p[0], p[1]]
 
     def g_pop(self):
-        p = self._coll_pick(("o2m", "m2m", "assoc"))
+        p = self._coll_pick(("o2m", "m2m", "assoc", "o2m_uni"))
         if not p:
             return None
         return ["pop", p[0], p[1]]
